@@ -112,6 +112,8 @@ class PGMCompiler:
         The object itself.
         """
 
+        # a new program: its dwell time is counted from zero, also when the object has already written a file
+        self._total_dwell_time = 0.0
         self.header()
         self.dwell(1.0)
         self.instruction('\n')
@@ -805,6 +807,8 @@ class PGMCompiler:
         with open(pgm_filename, 'w') as f:
             f.write(''.join(self._instructions))
         self._instructions.clear()
+        # the DVAR line went out with the file: a variable has to be declared again in the next one
+        self._dvars.clear()
         if verbose:
             print('G-code compilation completed.')
 
